@@ -383,4 +383,139 @@ Proof.
     exists v. split; [exact Hv|]. apply nmem_not_in in H. rewrite H. discriminate.
 Qed.
 
+
+Lemma app_nonempty : forall {A} (l1 l2 : list A), l1 ++ l2 <> [] <-> (l1 <> [] \/ l2 <> []).
+Proof.
+  intros A l1 l2. split.
+  - intro H. destruct l1; [right; exact H | left; discriminate].
+  - intros [H|H] E; apply app_eq_nil in E; destruct E; contradiction.
+Qed.
+
+(* ---- 22 VariablesAreInputTypes ---- *)
+Definition Violates_variables_are_input_types : Prop :=
+  exists o v, In o (w_ops W) /\ In v (wo_vars o) /\
+    known S (snd (type_named (wv_type v))) = true /\ is_input S (snd (type_named (wv_type v))) = false.
+
+Lemma variables_are_input_types_iff :
+  rule_variables_are_input_types S W <> [] <-> Violates_variables_are_input_types.
+Proof.
+  unfold rule_variables_are_input_types, Violates_variables_are_input_types. rewrite flat_map_nonempty. split.
+  - intros [o [Ho H]]. apply flat_map_nonempty in H. destruct H as [v [Hv H]]. exists o, v.
+    split; [exact Ho|]. split; [exact Hv|].
+    destruct (known S (snd (type_named (wv_type v)))); simpl in H; [|contradiction].
+    destruct (is_input S (snd (type_named (wv_type v)))); simpl in H; [contradiction | auto].
+  - intros [o [v [Ho [Hv [H1 H2]]]]]. exists o. split; [exact Ho|]. apply flat_map_nonempty.
+    exists v. split; [exact Hv|]. rewrite H1, H2. simpl. discriminate.
+Qed.
+
+(* ---- 14 PossibleFragmentSpreads ---- *)
+Definition bad_spread (i : item) : Prop :=
+  match i with
+  | IInline (Some p) (Some t) _ _ => types_overlap S t p = false
+  | ISpread (Some p) _ _ g =>
+    exists f t, fragw W g = Some f /\ resolve S (wf_cond f) = Some t /\ types_overlap S t p = false
+  | _ => False
+  end.
+Definition Violates_possible_fragment_spreads : Prop := exists i, In i (doc_items S W) /\ bad_spread i.
+
+Lemma possible_fragment_spreads_iff :
+  rule_possible_fragment_spreads S W <> [] <-> Violates_possible_fragment_spreads.
+Proof.
+  unfold rule_possible_fragment_spreads, Violates_possible_fragment_spreads. rewrite flat_map_nonempty.
+  split; intros [i [Hi H]]; exists i; (split; [exact Hi|]);
+    destruct i as [|[p|] id nid g|[p|] [t|] id tc| | |]; simpl in *; try contradiction.
+  - destruct (fragw W g) as [f|] eqn:E1; [|contradiction].
+    destruct (resolve S (wf_cond f)) as [t|] eqn:E2; [|contradiction].
+    destruct (types_overlap S t p) eqn:E; [contradiction|]. exists f, t.
+    split; [reflexivity|]. split; [exact E2 | exact E].
+  - destruct (types_overlap S t p); [contradiction | reflexivity].
+  - destruct H as [f [t [H1 [H2 H3]]]]. rewrite H1, H2, H3. discriminate.
+  - rewrite H. discriminate.
+Qed.
+
+(* ---- 0 ArgumentsOfCorrectType (relative to the model of isValidLiteralValue) ---- *)
+Definition Violates_arguments_of_correct_type : Prop :=
+  exists ow ad a, In (IArg ow (Some ad) a) (doc_items S W) /\ vlit S (wa_val a) (a_type ad) = false.
+
+Lemma arguments_of_correct_type_iff :
+  rule_arguments_of_correct_type S W <> [] <-> Violates_arguments_of_correct_type.
+Proof.
+  unfold rule_arguments_of_correct_type, Violates_arguments_of_correct_type. rewrite flat_map_nonempty. split.
+  - intros [i [Hi H]]. destruct i as [| | | |ow [ad|] a|]; try contradiction.
+    exists ow, ad, a. split; [exact Hi|]. destruct (vlit S (wa_val a) (a_type ad)); [contradiction | reflexivity].
+  - intros [ow [ad [a [Hi H]]]]. exists (IArg ow (Some ad) a). split; [exact Hi|]. rewrite H. discriminate.
+Qed.
+
+Lemma arguments_of_correct_type_located : forall x, In x (rule_arguments_of_correct_type S W) ->
+  exists ow ad a, In (IArg ow (Some ad) a) (doc_items S W) /\ vlit S (wa_val a) (a_type ad) = false /\
+                  wv_id (wa_val a) = x.
+Proof.
+  unfold rule_arguments_of_correct_type. intros x H. apply in_flat_map in H. destruct H as [i [Hi H]].
+  destruct i as [| | | |ow [ad|] a|]; simpl in H; try contradiction.
+  destruct (vlit S (wa_val a) (a_type ad)) eqn:E; simpl in H; [contradiction|].
+  destruct H as [H|[]]. exists ow, ad, a. auto.
+Qed.
+
+(* ---- 1 DefaultValuesOfCorrectType ---- *)
+Definition Violates_default_values_of_correct_type : Prop :=
+  exists o v d t, In o (w_ops W) /\ In v (wo_vars o) /\ wv_default v = Some d /\
+    type_from_ast S (erase_type (wv_type v)) = Some t /\ (is_nonnull t = true \/ vlit S d t = false).
+
+Lemma default_values_of_correct_type_iff :
+  rule_default_values_of_correct_type S W <> [] <-> Violates_default_values_of_correct_type.
+Proof.
+  unfold rule_default_values_of_correct_type, Violates_default_values_of_correct_type.
+  rewrite flat_map_nonempty. split.
+  - intros [o [Ho H]]. apply flat_map_nonempty in H. destruct H as [v [Hv H]].
+    destruct (wv_default v) as [d|] eqn:Ed; [|contradiction].
+    destruct (type_from_ast S (erase_type (wv_type v))) as [t|] eqn:Et; [|contradiction].
+    exists o, v, d, t. repeat (split; [assumption|]).
+    destruct (is_nonnull t); [left; reflexivity|]. destruct (vlit S d t); [contradiction | right; reflexivity].
+  - intros [o [v [d [t [Ho [Hv [Ed [Et H]]]]]]]]. exists o. split; [exact Ho|]. apply flat_map_nonempty.
+    exists v. split; [exact Hv|]. rewrite Ed, Et. destruct H as [H|H]; rewrite H; [discriminate|].
+    destruct (is_nonnull t); discriminate.
+Qed.
+
+(* ---- 23 VariablesInAllowedPosition ---- *)
+Definition Violates_variables_in_allowed_position : Prop :=
+  exists o u vd ut vt, In o (w_ops W) /\ In u (rec_uses S W o) /\
+    find_vardef (fst (snd u)) (wo_vars o) = Some vd /\ snd (snd u) = Some ut /\
+    type_from_ast S (erase_type (wv_type vd)) = Some vt /\
+    subtype S (effective_type vt vd) ut = false.
+
+Lemma variables_in_allowed_position_iff :
+  rule_variables_in_allowed_position S W <> [] <-> Violates_variables_in_allowed_position.
+Proof.
+  unfold rule_variables_in_allowed_position, Violates_variables_in_allowed_position.
+  rewrite flat_map_nonempty. split.
+  - intros [o [Ho H]]. apply flat_map_nonempty in H. destruct H as [u [Hu H]].
+    destruct (find_vardef (fst (snd u)) (wo_vars o)) as [vd|] eqn:Ev; [|contradiction].
+    destruct (snd (snd u)) as [ut|] eqn:Eu; [|contradiction].
+    destruct (type_from_ast S (erase_type (wv_type vd))) as [vt|] eqn:Et; [|contradiction].
+    destruct (subtype S (effective_type vt vd) ut) eqn:Es; [contradiction|].
+    exists o, u, vd, ut, vt. auto 10.
+  - intros [o [u [vd [ut [vt [Ho [Hu [Ev [Eu [Et Es]]]]]]]]]]. exists o. split; [exact Ho|].
+    apply flat_map_nonempty. exists u. split; [exact Hu|]. rewrite Ev, Eu, Et, Es. discriminate.
+Qed.
+
+(* ---- 3 FragmentsOnCompositeTypes ---- *)
+Definition Violates_fragments_on_composite : Prop :=
+  (exists pt t id tc, In (IInline pt (Some t) id (Some tc)) (doc_items S W) /\ is_composite S t = false) \/
+  (exists f t, In f (w_frags W) /\ resolve S (wf_cond f) = Some t /\ is_composite S t = false).
+
+Lemma fragments_on_composite_iff :
+  rule_fragments_on_composite S W <> [] <-> Violates_fragments_on_composite.
+Proof.
+  unfold rule_fragments_on_composite, Violates_fragments_on_composite.
+  rewrite app_nonempty, !flat_map_nonempty. split.
+  - intros [[i [Hi H]]|[f [Hf H]]].
+    + left. destruct i as [| |pt [t|] id [tc|]| | |]; try contradiction.
+      exists pt, t, id, tc. split; [exact Hi|]. destruct (is_composite S t); [contradiction | reflexivity].
+    + right. destruct (resolve S (wf_cond f)) as [t|] eqn:E; [|contradiction].
+      exists f, t. split; [exact Hf|]. split; [exact E|]. destruct (is_composite S t); [contradiction | reflexivity].
+  - intros [[pt [t [id [tc [Hi H]]]]]|[f [t [Hf [E H]]]]].
+    + left. exists (IInline pt (Some t) id (Some tc)). split; [exact Hi|]. rewrite H. discriminate.
+    + right. exists f. split; [exact Hf|]. rewrite E, H. discriminate.
+Qed.
+
 End R.
